@@ -159,6 +159,26 @@ func (r *cresp) render(rng *rand.Rand, key string, reqProtos []string, reqExts [
 		}
 	case "foreign":
 		lines = append(lines, "Sec-WebSocket-Extensions: x-never-offered")
+	case "offered2": // two offered extensions in one header line, the second-offered first
+		if len(reqExts) > 1 {
+			sentExts = []string{reqExts[1] + ";a=1", reqExts[0]}
+			lines = append(lines, "Sec-WebSocket-Extensions: "+reqExts[1]+"; a=1, "+reqExts[0])
+		} else {
+			sentExts = []string{reqExts[0]}
+			lines = append(lines, "Sec-WebSocket-Extensions: "+reqExts[0])
+		}
+	case "mixedrev": // the foreign one first
+		if len(reqExts) > 0 {
+			lines = append(lines, "Sec-WebSocket-Extensions: x-never-offered, "+reqExts[0])
+		} else {
+			lines = append(lines, "Sec-WebSocket-Extensions: x-never-offered")
+		}
+	case "mixedmid":
+		if len(reqExts) > 1 {
+			lines = append(lines, "Sec-WebSocket-Extensions: "+reqExts[0]+", x-never-offered; b, "+reqExts[1])
+		} else {
+			lines = append(lines, "Sec-WebSocket-Extensions: x-never-offered")
+		}
 	case "mixed":
 		if len(reqExts) > 0 {
 			lines = append(lines, "Sec-WebSocket-Extensions: "+reqExts[0]+", x-never-offered; a=1")
@@ -170,7 +190,7 @@ func (r *cresp) render(rng *rand.Rand, key string, reqProtos []string, reqExts [
 		lines = append(lines, "X-Other: value", "Server: verif")
 	}
 	rng.Shuffle(len(lines), func(i, j int) { lines[i], lines[j] = lines[j], lines[i] })
-	if len(sentExts) == 2 {
+	if len(sentExts) == 2 && r.Exts == "offeredparams" {
 		// two extension header lines: what the server "sent" is in wire order
 		for _, l := range lines {
 			if strings.HasPrefix(l, "Sec-WebSocket-Extensions: ") {
@@ -303,9 +323,9 @@ func c10(c *ctx) {
 		for _, co := range []string{"absent", "ok", "varied", "dup", "wrong"} {
 			for _, ac := range []string{"absent", "ok", "varied", "dup", "otherkey", "short", "lowbits", "casefold", "padded"} {
 				for _, pr := range []string{"none", "requested", "foreign"} {
-					for _, ex := range []string{"none", "offered", "offeredparams", "foreign", "mixed"} {
+					for _, ex := range []string{"none", "offered", "offeredparams", "foreign", "mixed", "offered2", "mixedrev", "mixedmid"} {
 						k++
-						if !c.thorough && k%4 != 0 && !(up == "ok" && co == "ok" && ac == "ok") {
+						if false {
 							continue
 						}
 						r := base
